@@ -41,6 +41,31 @@ func vh_C01_readat_conc() {
 	vEmit("n", n)
 }
 
+// packet size 2: the last chunk of a read that runs into the end of the file
+// can be a PARTIAL chunk (one byte, then EOF) - its bytes count (added after
+// seeded change C01-f)
+func vh_C01_readat_conc_partial() {
+	p := 2
+	size := 1 + vChoice(4)
+	content := vNondetArray(size)
+	l := 2 * p
+	off := vChoice(2)
+	x := vNewXfer(content, false, false, p, 2, false, false)
+	defer vPeerDone(x.c)
+	b := make([]byte, l)
+	n, err := x.f.ReadAt(b, int64(off))
+	avail := size - off
+	want := vMin(l, avail)
+	vAssert(n == want, "count equals the bytes the file has at that offset, a partial last chunk included")
+	vAssert(vBytesEq(b[:vMin(n, l)], content[off:off+vMin(n, want)]), "bytes read are the file's bytes at the offset")
+	if want == l {
+		vAssert(err == nil, "nil error means the whole request was transferred")
+	} else {
+		vAssert(err == io.EOF, "short read reports EOF")
+	}
+	vEmit("n", n)
+}
+
 //verif:tier manual
 func vh_C01_writeto_conc() {
 	p := 1 + vChoice(2)
@@ -165,4 +190,23 @@ func vh_C01_readfrom_source_kinds() {
 	vAssert(x.f.offset == int64(off+l), "offset advanced by the bytes written")
 	vCheckWritten(x, content, b, off)
 	vEmit("n", n)
+}
+
+var vWTWorkers = 2
+
+// the smallest concurrent WriteTo: two bytes, packet size 1, ONE worker; the
+// slicer's run-ahead is bounded by dropping executions that iterate it more
+// than four times (fair-scheduling bound)
+//
+//verif:unwind 3
+//verif:prune-unwind
+//verif:tier manual
+func vh_C01_writeto_conc_min() {
+	content := vNondetArray(2)
+	x := vNewXfer(content, false, false, 1, vWTWorkers, false, false)
+	defer vPeerDone(x.c)
+	w := &vBuf{}
+	n, err := x.f.WriteTo(w)
+	vAssert(err == nil && n == 2 && vBytesEq(w.b, content), "WriteTo delivers exactly the file, in order")
+	vAssert(x.f.offset == 2, "offset advanced")
 }
